@@ -57,6 +57,8 @@ enum Step {
     /// a peer's successful append answer arrives at the leader
     AckArrives(u8),
     Propose,
+    /// the leader proposes a codebook replacement (a log entry like any other)
+    ProposeCodebook,
     /// become leader if necessary (own election, a granted vote, one successful append answer), then propose
     LeadAndPropose,
     /// install a snapshot holding the node's log plus k new entries, then a heartbeat from that leader
@@ -98,6 +100,7 @@ fn step_strategy() -> impl Strategy<Value = Step> {
         3 => (1u8..3).prop_map(Step::VoteArrives),
         2 => (1u8..3).prop_map(Step::AckArrives),
         3 => Just(Step::Propose),
+        1 => Just(Step::ProposeCodebook),
         3 => Just(Step::LeadAndPropose),
         2 => (0u8..3, -2i8..3, prop_oneof![3 => Just(0u8), 2 => 1u8..4]).prop_map(|(dterm, extra, rewrite)| Step::InstallSnapshot { dterm, extra, rewrite }),
     ]
@@ -351,6 +354,20 @@ impl Driver {
                 match self.node.propose(block(uid)) {
                     Ok(i) => {
                         ctx.label("step:propose-accepted");
+                        Outcome::Proposed(i)
+                    },
+                    Err(_) => Outcome::Other,
+                }
+            },
+            Step::ProposeCodebook => {
+                if self.node.state() != RaftState::Leader {
+                    return Outcome::Nothing;
+                }
+                let snap = tensor_chain::codebook::GlobalCodebookSnapshot::new(4, Vec::new(), self.next_uid);
+                self.next_uid += 1;
+                match self.node.propose_codebook_replace(snap) {
+                    Ok(i) => {
+                        ctx.label("step:propose-codebook-accepted");
                         Outcome::Proposed(i)
                     },
                     Err(_) => Outcome::Other,
